@@ -893,7 +893,7 @@ pub fn def() -> PropertyDef {
     PropertyDef {
         id: "C07",
         scenarios: vec![Box::new(Typed(C07Raw)), Box::new(Typed(C07Open))],
-        rule: "Each run: a scripted raw QUIC peer (client role against the real server on even indexes, server role against the real client on odd ones) opens 1-40 stalled streams (uni/bidi; no byte, first byte of the 2-byte type, type without session id, first byte of a 2/4/8-byte session id, complete preamble then silence, complete preamble plus unread data; against the server also further complete or half-written CONNECT requests left open) interleaved in generated order with 1-5 healthy WebTransport streams (tagged payloads 0..5000 B), datagrams, quiescence points and sleeps; then datagrams on a quiet network and a close capsule. The application keeps accepting streams; in 30% of the runs the stalls are then held for another 6-20 s before one more healthy stream of each kind is opened; one run in twelve builds the endpoint with the library's default transport configuration and leaves a whole default stream window (1.25 MB) unread in one accepted stream; in a quarter of the runs it calls receive_datagram only after the healthy streams have been checked, so 2-5 datagrams sit unread meanwhile. Oracle (bounded liveness, no faults): every healthy stream accepted and read byte-exact within 30 s simulated, every late datagram received, all three pending calls report ApplicationClosed with the capsule's code within 30 s. e2e-open-credit: real endpoints; the opener has used up the acceptor's concurrent-stream credit of one kind (1-8 streams left open and unread) and one more opening of that kind waits for credit; a stream of the other kind opened then must be written, finished and delivered within 30 s. Non-trivial = at least one stalled and one healthy stream in the run (the over-limit opening really was pending); distinct = distinct plan hashes.",
+        rule: "Each run: a scripted raw QUIC peer (client role against the real server on even indexes, server role against the real client on odd ones) opens 1-40 stalled streams (uni/bidi; no byte, first byte of the 2-byte type, type without session id, first byte of a 2/4/8-byte session id, complete preamble then silence, complete preamble plus unread data; against the server also further complete or half-written CONNECT requests left open) interleaved in generated order with 1-5 healthy WebTransport streams (tagged payloads 0..5000 B), datagrams, quiescence points and sleeps; then datagrams on a quiet network and a close capsule. The application keeps accepting streams; in 30% of the runs the stalls are then held for another 6-20 s before one more healthy stream of each kind is opened; one run in twelve builds the endpoint with the library's default transport configuration and leaves a whole default stream window (1.25 MB) unread in one accepted stream; in a quarter of the runs the raw peer finally abandons every stalled stream with RESET_STREAM (codes 0, 1, 0x10c, 0x52e4a40fa8db, 2^62-1) before the later streams, datagrams and the close capsule; in a quarter of the runs it calls receive_datagram only after the healthy streams have been checked, so 2-5 datagrams sit unread meanwhile. Oracle (bounded liveness, no faults): every healthy stream accepted and read byte-exact within 30 s simulated, every late datagram received, all three pending calls report ApplicationClosed with the capsule's code within 30 s. e2e-open-credit: real endpoints; the opener has used up the acceptor's concurrent-stream credit of one kind (1-8 streams left open and unread) and one more opening of that kind waits for credit; a stream of the other kind opened then must be written, finished and delivered within 30 s. Non-trivial = at least one stalled and one healthy stream in the run (the over-limit opening really was pending); distinct = distinct plan hashes.",
         assumptions: vec![
             "bounded liveness is judged on a fault-free simulated network after the script has finished",
             "the raw peer and reference codec are harness code (validated against RFC worked examples at start-up)",
